@@ -56,6 +56,12 @@ def handleConv (u : String) (a : Rat) (impl : List String) : Verdict :=
       "unit-inconsistent" s!"rads {ratApprox r} degs {ratApprox d} turns {ratApprox t} do not describe one angle"
   | _ => (v.withDiff true "non-finite or malformed output").withSpec true "unit-nonfinite" "conversion of a finite angle is not finite"
 
+/-- Round to the nearest `f32` (ties to even), as an exact rational. -/
+def rn (q : Rat) : Rat := F32.toRatD (F32.ofRat q)
+
+/-- Least non-negative remainder `x − ⌊x/m⌋·m` for `m > 0`, written out for the oracle (no model code). -/
+def specRem (x m : Rat) : Rat := x - ((x / m).floor : Int) * m
+
 def handleWrap (a mn mx : Rat) (impl : List String) : Verdict :=
   let m := mx - mn
   if m == 0 then
@@ -64,26 +70,43 @@ def handleWrap (a mn mx : Rat) (impl : List String) : Verdict :=
   else
     let s := rmax3 a mn mx
     let tol := s * ratPow2 (-18) + tiny
+    -- a few ulps of the quantities the last two additions work on
+    let ulpTol := 4 * ratPow2 (-23) * ratMax s (ratAbs m) + tiny
     let w := wrap a mn mx
+    -- the same model function on the operands as `f32` holds them: `self.0 - min.0`, `max.0 - min.0`
+    let xf := rn (a - mn)
+    let mf := rn (mx - mn)
+    let wf := mn + remEuclid xf mf
     let q := (a - mn) / m
     let revs := ratAbs q
     let tags := ["wrap", if m < 0 then "reversed" else if revs < 1 && 0 ≤ q then "inside" else if revs < 100 then "few-revs" else "many-revs",
                  if a < mn then "below" else "at-or-above"]
     let v := Verdict.ok tags
+    let v := if a == mx then v.addTag "input=max" else if a == mn then v.addTag "input=min" else v
     match parseAll impl with
     | some [iw] =>
       let lo := mn
       let hi := mn + ratAbs m
       let nearEdge := ratAbs (w - lo) ≤ tol || ratAbs (hi - w) ≤ tol
-      let close := absClose iw w tol || (nearEdge && absClose (ratAbs (iw - w)) (ratAbs m) tol)
-      let v := v.withDiff (!close) s!"impl {ratApprox iw} model {ratApprox w} tol {ratApprox tol}"
+      -- Either the exact value (loose: rewrites may round differently), or – this is the only way
+      -- the *other* end of the interval is acceptable – the exact value for the rounded operands.
+      let close := absClose iw w tol || (mf != 0 && absClose iw wf ulpTol)
+      let v := v.withDiff (!close) s!"impl {ratApprox iw} model {ratApprox w} (on rounded operands {ratApprox wf}) tol {ratApprox tol}"
       let v := if nearEdge then v.addTag "near-boundary" else v
+      let v := if absClose iw w tol then v else v.addTag "other-end-by-operand-rounding"
       if m < 0 then v else
-      -- oracle: inside [min, max] (the top only by rounding), congruent to the input
+      -- oracle: inside [min, max], the top only by rounding, congruent to the input
       let eps := ratMax (ratAbs mn) (ratAbs mx) * ratPow2 (-21) + tiny
       let v := v.withSpec (!(mn - eps ≤ iw && iw ≤ mx + eps)) "wrap-outside-interval"
         s!"wrap({ratApprox a}; {ratApprox mn}, {ratApprox mx}) = {ratApprox iw}"
-      let v := if iw == mx then v.addTag "returned-max" else v
+      -- `max` itself is legitimate only as a rounding artefact: the exact representative
+      -- r = a − k·span ∈ [min, max) lies within a few ulps of max, or it does so for the operands
+      -- rounded to f32 (then `self − min` / `max − min` were inexact).
+      let r := mn + specRem (a - mn) m
+      let topByRounding := mx - r ≤ ulpTol || (0 < mf && mf - specRem xf mf ≤ ulpTol)
+      let v := if mx ≤ iw then v.addTag "returned-max" else v
+      let v := v.withSpec (mx ≤ iw && iw ≤ mx + eps && !topByRounding) "wrap-upper-bound-returned"
+        s!"wrap({ratApprox a}; {ratApprox mn}, {ratApprox mx}) returned the excluded upper bound {ratApprox iw}; the representative in [min, max) is {ratApprox r}, {ratApprox (mx - r)} below max"
       let tolq := tol / m
       if tolq ≥ 1 / 4 then v.addTag "congruence-unresolvable" else
       let k := (iw - a) / m
@@ -91,6 +114,18 @@ def handleWrap (a mn mx : Rat) (impl : List String) : Verdict :=
       v.withSpec (dist > tolq) "wrap-not-congruent"
         s!"wrap({ratApprox a}; {ratApprox mn}, {ratApprox mx}) = {ratApprox iw} differs from the input by {ratApprox k} interval lengths (margin {ratApprox (dist - tolq)})"
     | _ => (v.withDiff true "non-finite or malformed output").withSpec (0 < m) "wrap-nonfinite" "wrap of a finite angle into a proper interval is not finite"
+
+/-- `wrapu <unit> a min max`: the three angles are built with the unit's constructor; the
+implementation reports the wrapped value and the three constructed radian values. -/
+def handleWrapU (u : String) (a mn mx : Rat) (impl : List String) : Verdict :=
+  match parseAll (impl.drop 1) with
+  | some [ar, mnr, mxr] =>
+    let mk (x : Rat) : Rat := if u == "deg" then degs piF x else if u == "turn" then turns piF x else rads x
+    let rel : Rat := 1 / 1000000
+    let v := (handleWrap ar mnr mxr (impl.take 1)).addTag ("unit-" ++ u)
+    v.withDiff (!(relClose ar (mk a) rel && relClose mnr (mk mn) rel && relClose mxr (mk mx) rel))
+      s!"constructors: impl {fmt [ar, mnr, mxr]} model {fmt [mk a, mk mn, mk mx]}"
+  | _ => (Verdict.mkDiff "non-finite or malformed output" ["wrap"]).withSpec true "wrap-nonfinite" "not finite"
 
 def exactEq (impl : String) (model : Rat) : Bool :=
   match rat? impl with | some v => v == model | none => false
@@ -324,6 +359,10 @@ def handle (case impl : List String) : Verdict :=
   match case with
   | ["conv", u, a] =>
     match rat? a with | some a => handleConv u a impl | none => bad "conv"
+  | ["wrapu", u, a, mn, mx] =>
+    match rat? a, rat? mn, rat? mx with
+    | some a, some mn, some mx => handleWrapU u a mn mx impl
+    | _, _, _ => bad "wrapu"
   | ["wrap", a, mn, mx] =>
     match rat? a, rat? mn, rat? mx with
     | some a, some mn, some mx => handleWrap a mn mx impl
